@@ -28,6 +28,7 @@ fn main() {
         "c03" => vmc::props::c03(tier),
         "c10" => vmc::props::c10(tier),
         "c11" => vmc::props::c11(tier),
+        "c12" => vmc::props::c12(tier),
         "c13" => vmc::props::c13(tier),
         "c14" => vmc::props::c14(tier),
         "c15" => vmc::props::c15(tier),
